@@ -159,6 +159,23 @@ def run(ctx):
     if not seen:
         ctx.bad('BaseManager.basic_disconnect', 'no-unmark', 'no path '
                 'both leaves the rooms and drops the mark', where(f))
+    ctx.rule('C20.R3', 'pending_disconnect is read and written only by '
+             'BaseManager.is_connected / pre_disconnect / basic_disconnect',
+             floor=5)
+    owners = {'__init__', 'is_connected', 'pre_disconnect',
+              'basic_disconnect'}
+    from ..known_names import KNOWN_NAMES
+    for g in m.funcs:
+        for node in walk_own(g.node):
+            if isinstance(node, ast.Attribute) and \
+                    node.attr == 'pending_disconnect':
+                ok = g.cls is not None and g.cls.name == 'BaseManager' and \
+                    (g.name in owners or g.name not in KNOWN_NAMES)
+                ctx.check(ok, g.qualname, 'pending_disconnect accessed by '
+                          'its owners only', key='pending-foreign',
+                          reason='%s touches pending_disconnect outside the '
+                          'test/mark/release functions' % g.qualname,
+                          where=where(g, node))
     ctx.assume('a repair relying on a single GIL-atomic operation instead of '
                'a lock is not recognised (stated limit)')
     ctx.assume('schedules are NOT explored; this is the lock discipline '
